@@ -106,8 +106,12 @@ def functions? : List Sx → Option (List Function)
   | [] => some []
   | x :: xs => do pure ((← function? x) :: (← functions? xs))
 
+/-- the functions are ADDED in order (`Program::add_function`): whatever index a function carries in the text (one cloned
+    out of another program carries that program's index) it gets the next free index of this program -/
 def program? : Sx → Option Program
-  | .list (.atom "prog" :: fs) => do pure { functions := (← functions? fs) }
+  | .list (.atom "prog" :: fs) => do
+      let gs ← functions? fs
+      pure { functions := gs.zipIdx.map (fun (g, i) => { g with index := some i }) }
   | _ => none
 
 -- printers ------------------------------------------------------------------------------------
